@@ -41,7 +41,8 @@ TABLES = ['none', 'generic', 'per-code', 'both', 'two-per-key', 'replace-generic
 FLOORS = {'*': {**{f'mw:{k}:depth{d}': 20 for k in MW_KINDS for d in range(3)},
                 **{f'table:{t}:failing': 20 for t in TABLES if t != 'none'},
                 **{f'table:{t}:batch': 5 for t in TABLES}, **{f'table:{t}:notification': 5 for t in TABLES},
-                'flavour:sync': 500, 'flavour:async': 500, 'flavour:async-suspending': 500, 'flavour:async-sequential': 500, 'rejected-documents': 100,
+                'flavour:sync': 500, 'flavour:async': 500, 'flavour:async-suspending': 500, 'flavour:async-sequential': 500, 'flavour:async-awaitables': 500,
+                'flavour:flask-endpoint': 100, 'flavour:aiohttp-endpoint': 100, 'rejected-documents': 100,
                 'short-circuit': 300, 'handler-events': 500}}
 
 EVENTS = []
@@ -85,7 +86,12 @@ def make_mw(kind, idx, flavour):
             return out
         return mw
 
-    suspend = flavour in ('async-suspending', 'async-sequential')
+    suspend = flavour in ('async-suspending', 'async-sequential', 'async-awaitables')
+
+    if flavour == 'async-awaitables':
+        # a middleware that is a plain callable handing out an awaitable which is not a coroutine object
+        def awmw(request, context, handler):
+            return Awaitable(amw(request, context, handler)) if idx % 2 else asyncio.ensure_future(amw(request, context, handler))
 
     async def amw(request, context, handler):
         pre(request, context)
@@ -99,7 +105,17 @@ def make_mw(kind, idx, flavour):
             await asyncio.sleep(0)
         post(request)
         return out
-    return amw
+    return awmw if flavour == 'async-awaitables' else amw
+
+
+class Awaitable:
+    """an awaitable that is neither a coroutine object nor a future"""
+
+    def __init__(self, coro):
+        self._coro = coro
+
+    def __await__(self):
+        return self._coro.__await__()
 
 
 def make_handler(key, j, action, flavour):
@@ -115,9 +131,15 @@ def make_handler(key, j, action, flavour):
         return work
 
     async def awork(request, context, error):
-        if flavour in ('async-suspending', 'async-sequential'):
+        if flavour in ('async-suspending', 'async-sequential', 'async-awaitables'):
             await asyncio.sleep(0)
         return work(request, context, error)
+
+    if flavour == 'async-awaitables':
+        # what loop.run_in_executor / asyncio.ensure_future / an object with __await__ hand out
+        def fwork(request, context, error):
+            return asyncio.ensure_future(awork(request, context, error)) if (j or 0) % 2 == 0 else Awaitable(awork(request, context, error))
+        return fwork
     return awork
 
 
@@ -241,14 +263,43 @@ def expected_element(el, stack, table, ctx_token):
     return events, resp, executions
 
 
+def endpoint_factory(flavour):
+    """a dispatcher obtained through an integration's add_endpoint(); the integration object itself was configured with
+    decoy middlewares and error handlers that answer everything / replace every error: they belong to ITS dispatcher"""
+    inner = 'sync' if flavour == 'flask-endpoint' else 'async'
+    decoy_mw = make_mw('A', 99, inner)
+    decoy_eh = make_handler('decoy', 0, 'replace', inner)
+
+    def make(**kwargs):
+        kwargs = {k: v for k, v in kwargs.items() if v}          # an endpoint configured with nothing is given nothing
+        if flavour == 'flask-endpoint':
+            from pjrpc.server.integration import flask as integ
+            rpc = integ.JsonRPC('/rpc', middlewares=[decoy_mw], error_handlers={None: [decoy_eh]})
+        else:
+            import aiohttp.web
+            from pjrpc.server.integration import aiohttp as integ
+            rpc = integ.Application('/rpc', app=aiohttp.web.Application(), middlewares=[decoy_mw], error_handlers={None: [decoy_eh]})
+        return rpc.add_endpoint('/sub', **kwargs)
+    return make
+
+
+def base_flavour(flavour):
+    return {'flask-endpoint': 'sync', 'aiohttp-endpoint': 'async'}.get(flavour, flavour)
+
+
 def run_case(ctx, stack, table, doc_name, flavour):
     del EVENTS[:]
+    outer = flavour
+    flavour = base_flavour(outer)
     is_async = flavour != 'sync'
     tspec = table_spec(table)
     mws = [make_mw(k, i, flavour) for i, k in enumerate(stack)]
     handlers = make_handlers(tspec, flavour)
     extra = {'concurrent_batch': False} if flavour == 'async-sequential' else {}
+    if outer != flavour:
+        extra['make_dispatcher'] = endpoint_factory(outer)
     w = world.World(is_async, None, middlewares=mws, error_handlers=handlers, **extra)
+    flavour = outer
     doc = DOCS[doc_name]
     text = doc if isinstance(doc, str) else json.dumps(doc)
     CTX = world.Context('c12')
@@ -372,7 +423,10 @@ def gen(ctx):
     names = list(DOCS)
     for stack in stacks:
         for table in TABLES:
-            for flavour in ('sync', 'async', 'async-suspending', 'async-sequential'):
+            flavours = ['sync', 'async', 'async-suspending', 'async-sequential', 'async-awaitables']
+            if len(stack) <= 1 or (len(stack) == 2 and table in ('none', 'generic', 'both')):
+                flavours += ['flask-endpoint', 'aiohttp-endpoint']
+            for flavour in flavours:
                 if full:
                     chosen = names
                 else:
